@@ -107,14 +107,15 @@ Definition check_prec (p : precv) : option Z :=
 
 Record cfg := mkCfg { c_prec : precv; c_fmax : bool; c_fmin : bool }.
 
-(* `for nnd in child_nodes[1:]` ... ; `later` children still carry their original lengths when the
-   error message is formatted (`desc_nd.edge.length + desc_nd.age` raises TypeError on None) *)
+(* `for nnd in child_nodes[1:]` ... ; the error message is formatted with
+   `(desc_nd.edge.length or 0.0) + desc_nd.age` (repo commit bf544174), which cannot raise: the
+   exception is always UltrametricityError *)
 Fixpoint check_rest (p : Z) (i : Z) (age : Z) (rest : list atree) : cres (list atree) :=
   match rest with
   | [] => COk []
   | c :: r =>
     if Z.abs (age - a_path c) >? p
-    then CErr (if forallb len_defined r then Ultra else Py TypeErr) i
+    then CErr Ultra i
     else match check_rest p i age r with
          | COk r' => COk (coerce_len c :: r')
          | CErr e n => CErr e n
@@ -155,8 +156,7 @@ Definition calc_node_ages (c : cfg) (t : tree) : cres atree :=
 (* ------------------------------------------------------------------------------------------ *)
 (* Variant: the proposed repair of F16 (not what the library does today).  Per node the shortest
    and the longest path to a tip below it are kept; the test is `longest - shortest > precision`.
-   All children get 0.0 for a missing length before the test, so the error is always
-   UltrametricityError.  The harness selects this variant only when the working tree rejects the
+   The harness selects this variant only when the working tree rejects the
    F16 witness. *)
 Fixpoint alo (a : atree) : Z :=
   match a with
@@ -652,28 +652,21 @@ Inductive ages_obs :=
 | AgesOk (ages : list (Z * Z)) (lens : list (Z * option Z)) (ret : list Z)
 | AgesErr (e : cerr) (aged : Z).
 
-(* second variant bit: the working tree formats the error message without adding a None length
-   (repair of the masked-TypeError defect): the unforced TypeError of the model is then an
-   UltrametricityError.  (Unforced calls have no other source of TypeError.) *)
-Definition norm_err (mfix : bool) (e : cerr) : cerr :=
-  if mfix then match e with Py TypeErr => Ultra | _ => e end else e.
-Definition unforced (c : cfg) : bool := negb (c_fmax c || c_fmin c).
-
-Definition ages_obs_ok (fx mfix : bool) (c : cfg) (internal_only : bool) (t : tree) (o : ages_obs) : bool :=
+Definition ages_obs_ok (fx : bool) (c : cfg) (internal_only : bool) (t : tree) (o : ages_obs) : bool :=
   match calc_node_ages_v fx c t, o with
   | COk a, AgesOk ages lens ret =>
     list_eqb zz_eqb (map (fun v => (a_id v, a_age v)) (apostorder a)) ages
     && list_eqb zoz_eqb (map (fun v => (a_id v, a_len v)) (apostorder a)) lens
     && list_eqb Z.eqb (ret_ages internal_only a) ret
-  | CErr e n, AgesErr e' k => cerr_eqb (norm_err (mfix && unforced c) e) e' && (n_aged c t n =? k)%Z
+  | CErr e n, AgesErr e' k => cerr_eqb e e' && (n_aged c t n =? k)%Z
   | _, _ => false
   end.
 
 Inductive lz_obs := LOk (l : list Z) | LErr (e : cerr).
-Definition lz_obs_ok (mf : bool) (m : cres (list Z)) (o : lz_obs) : bool :=
+Definition lz_obs_ok (m : cres (list Z)) (o : lz_obs) : bool :=
   match m, o with
   | COk l, LOk l' => list_eqb Z.eqb l l'
-  | CErr e _, LErr e' => cerr_eqb (norm_err mf e) e'
+  | CErr e _, LErr e' => cerr_eqb e e'
   | _, _ => false
   end.
 
@@ -692,16 +685,16 @@ Definition tr_ok (n : Z) (w : tr) : bool :=
   && ((n <=? 2)%Z || Qclose (sqrt_f w * sqrt_f w * (12 * (nq - 2))) 1)
   && Qle_bool (Qabs (euler w - (5772156649015328606 # 10000000000000000000))) (1 # 1000000000000000).
 
-Definition gamma_ok (fx mfix : bool) (w : tr) (prec : precv) (t : tree) (o : gobs) : bool :=
+Definition gamma_ok (fx : bool) (w : tr) (prec : precv) (t : tree) (o : gobs) : bool :=
   match pybus_harvey_gamma_v fx prec t, o with
   | GOk p, GVal q => Qclose (gamma_value w p) q
-  | GAgeErr e, GObsErr e' => cerr_eqb (norm_err mfix e) e'
+  | GAgeErr e, GObsErr e' => cerr_eqb e e'
   | GErr e, GObsErr e' => cerr_eqb (Py e) e'
   | _, _ => false
   end.
 
 Inductive case :=
-| CaseAges (fx mfix : bool) (t : tree) (c : cfg) (internal_only : bool) (o : ages_obs) (sorted : lz_obs)
+| CaseAges (fx : bool) (t : tree) (c : cfg) (internal_only : bool) (o : ages_obs) (sorted : lz_obs)
            (mn : option Z) (eon : bool) (setlen : res tree)
 | CaseDepth (t : tree)
             (all_d : res (list (Z * Z)))           (* (id, root_distance) of every node, pre-order *)
@@ -709,15 +702,14 @@ Inductive case :=
             (rdepths : res (list (Z * Z))) (rages : res (list (Z * Z)))
             (lineages : list (Z * res Z))
             (len : Z) (maxd : res Z) (minmax : res (Z * Z))
-| CaseStats (fx mfix : bool) (t : tree) (w : tr)
+| CaseStats (fx : bool) (t : tree) (w : tr)
             (b1 : sobs) (colless : list (norm * sobs)) (sackin : list (norm * sobs))
             (nbar : sobs) (tness : sobs) (gammas : list (precv * gobs)).
 
 Definition case_ok (k : case) : bool :=
   match k with
-  | CaseAges fx mfix t c io o sorted mn eon setlen =>
-    ages_obs_ok fx mfix c io t o && lz_obs_ok (mfix && unforced c) (node_ages_v fx c io t) sorted
-    && setlen_ok fx c t mn eon setlen
+  | CaseAges fx t c io o sorted mn eon setlen =>
+    ages_obs_ok fx c io t o && lz_obs_ok (node_ages_v fx c io t) sorted && setlen_ok fx c t mn eon setlen
   | CaseDepth t all_d ret_leaf ret_all rdepths rages lineages len maxd minmax =>
     res_lzz_eqb (resolve_node_depths t) all_d
     && res_lz_eqb (calc_node_root_distances true t) ret_leaf
@@ -728,24 +720,24 @@ Definition case_ok (k : case) : bool :=
     && (tree_length t =? len)%Z
     && res_Z_eqb (max_distance_from_root t) maxd
     && res_eqb zz_eqb (minmax_leaf_distance_from_root t) minmax
-  | CaseStats fx mfix t w b1 colless sackin nbar tness gammas =>
+  | CaseStats fx t w b1 colless sackin nbar tness gammas =>
     tr_ok (Z.of_nat (length (leaves t))) w
     && sobs_ok (Ok (B1 t)) b1
     && forallb (fun no => sobs_ok (colless_tree_imbalance w (fst no) t) (snd no)) colless
     && forallb (fun no => sobs_ok (sackin_index w (fst no) t) (snd no)) sackin
     && sobs_ok (Ok (N_bar t)) nbar
     && sobs_ok (treeness t) tness
-    && forallb (fun po => gamma_ok fx mfix w (fst po) t (snd po)) gammas
+    && forallb (fun po => gamma_ok fx w (fst po) t (snd po)) gammas
   end.
 
 (* what the model computes, for replays *)
 Definition case_run (k : case) :=
   match k with
-  | CaseAges fx _ t c io _ _ mn eon _ =>
+  | CaseAges fx t c io _ _ mn eon _ =>
     (Some (calc_node_ages_v fx c t), None, None)
   | CaseDepth t _ _ _ _ _ lineages _ _ _ =>
     (None, Some (root_dists t, map (fun xo => num_lineages_at (fst xo) t) lineages, tree_length t), None)
-  | CaseStats fx _ t w _ colless sackin _ _ gammas =>
+  | CaseStats fx t w _ colless sackin _ _ gammas =>
     (None, None, Some (B1 t, map (fun no => colless_tree_imbalance w (fst no) t) colless,
                        map (fun no => sackin_index w (fst no) t) sackin, N_bar t, treeness t,
                        map (fun po => pybus_harvey_gamma_v fx (fst po) t) gammas))
